@@ -165,9 +165,9 @@ AM = r"^impl ArrayMeta \{"
 FAMILIES["arrmeth"] = {
     "anchor": "src/algorithm/monadic/mod.rs Array::reverse_depth; src/array.rs ArrayMeta mark helpers, ArrayFlags methods, Array::validate, validate_shape, row_slice; src/algorithm/mod.rs ArrayCmpSlice",
     "bound": "byte arrays of shapes [3], [4], [2,2], [2,3]; all 16 flag sets",
-    "header": "use crate::shim::*;\nuse std::ops::{Deref, DerefMut};\n",
+    "header": "use crate::shim::*;\nuse std::ops::{Deref, DerefMut};\nuse std::fmt;\n",
     "rewrites": (PUBCRATE, ("R4", r"(?m)^\s*#\[(?:track_caller|inline\(always\)|inline)\]\n", "", "attribute dropped")),
-    "dropped": "nothing inside the extracted items; ArrayFlags itself (a bitflags! type) and ArrayMetaInner are hand models in the shim",
+    "dropped": "serde attributes and serde trait bounds (ArrayMetaInner, ArrayRep, ArrayValueSer); ArrayFlags itself (a bitflags! type), MapKeys (opaque token), Array::map / MapKeys::normalized (assumed inverse of each other) are hand models in the shim",
     "groups": [
         {"prefix": "#[derive(Debug, Clone, Default)]\n", "items": [
             {"kind": "lines", "name": "struct ArrayMeta", "file": "src/array.rs", "regex": r"^pub struct ArrayMeta\(Option<Arc<ArrayMetaInner>>\);\n",
@@ -189,6 +189,24 @@ FAMILIES["arrmeth"] = {
             {"kind": "fn", "file": "src/array.rs", "impl": AM, "fn": f} for f in
             ["get_inner_mut", "get_mut", "is_sorted_up", "is_sorted_down", "take_sorted_flags", "take_value_flags", "or_sorted_flags",
              "mark_sorted_up", "mark_sorted_down", "reset_flags", "take_map_keys"]]},
+        {"prefix": "#[derive(Debug, Clone, Default, PartialEq, Eq)]\n", "items": [
+            {"kind": "block", "name": "struct ArrayMetaInner", "file": "src/array.rs", "header": r"^pub struct ArrayMetaInner \{",
+             "rewrites": (("R4", r"(?m)^\s*#\[serde\([^\n]*\)\]\n", "", "serde field attribute dropped"),)}]},
+        {"items": [
+            {"kind": "lines", "name": "static DEFAULT_META_INNER", "file": "src/array.rs", "regex": r"^static DEFAULT_META_INNER: ArrayMetaInner = ArrayMetaInner \{\n(?:[^\n]*\n)*?\};\n",
+             "rewrites": (("R1", r"^static ", "pub static ", "visibility"),)}]},
+        {"prefix": "#[derive(Debug, Clone)]\n", "items": [
+            {"kind": "block", "name": "enum ArrayRep", "file": "src/array.rs", "header": r"^enum ArrayRep<T: ArrayValueSer> \{",
+             "rewrites": (("R1", r"^enum ", "pub enum ", "visibility"),)}]},
+        {"items": [
+            {"kind": "block", "name": "trait ArrayValueSer", "file": "src/array.rs", "header": r"^trait ArrayValueSer: ArrayValue \+ fmt::Debug \{",
+             "rewrites": (("R1", r"^trait ", "pub trait ", "visibility"),
+                          ("R6", r"type Scalar: Serialize \+ DeserializeOwned \+ fmt::Debug \+", "type Scalar: fmt::Debug +", "serde bounds dropped"),
+                          ("R6", r"type Collection: Serialize \+ DeserializeOwned \+ fmt::Debug;", "type Collection: fmt::Debug;", "serde bounds dropped"))},
+            {"kind": "block", "name": "impl ArrayValueSer for u8", "file": "src/array.rs", "header": r"^impl ArrayValueSer for u8 \{"},
+            {"kind": "block", "name": "impl From<ArrayRep<T>> for Array<T>", "file": "src/array.rs", "header": r"^impl<T: ArrayValueSer> From<ArrayRep<T>> for Array<T> \{"},
+            {"kind": "block", "name": "impl From<Array<T>> for ArrayRep<T>", "file": "src/array.rs", "header": r"^impl<T: ArrayValueSer> From<Array<T>> for ArrayRep<T> \{"},
+        ]},
         {"items": [
             {"kind": "range_in_fn", "name": "mark recomputation block of From<ArrayRep<T>> for Array<T>", "file": "src/array.rs",
              "impl": r"^impl<T: ArrayValueSer> From<ArrayRep<T>> for Array<T> \{", "fn": "from",
